@@ -228,6 +228,10 @@ func (e *Variable) resetSelectorContainers(memory *WorkingMemory) {
 	for v := e; v != nil; v = v.Variable {
 		if v.ArrayMapSelector != nil && v.Variable != nil {
 			memory.ResetVariable(v.Variable)
+		} else if v.Variable != nil && v.Variable.ValueNode != nil && v.Variable.ValueNode.IsMap() {
+			// a member of a map (a JSON object) written as X.name is the entry X["name"]: both spellings are
+			// documented for JSON facts and may be mixed, so what depends on the map is reset as well
+			memory.ResetVariable(v.Variable)
 		}
 	}
 }
